@@ -181,6 +181,8 @@ where
     stats.add("probe_reader_blocked_by_queued_writer", outcome.probes.reader_blocked_by_queued_writer);
     stats.add("fault_preempted_inside_critical_section", outcome.probes.preemptions_inside_critical_section);
     stats.add("probe_try_lock_acquisitions", outcome.probes.try_acquisitions);
+    stats.add("fault_preempted_after_release", outcome.probes.preemptions_after_release);
+    stats.add("probe_failed_try_lock_acquisitions", outcome.probes.failed_try_acquisitions);
     let mut fp = Vec::with_capacity(outcome.grants.len() * 3);
     for g in &outcome.grants {
         fp.extend_from_slice(&[g.0, g.1, g.2]);
@@ -465,6 +467,7 @@ impl Engine for Conc {
                 kind,
                 writer_pref: rng.chance(2, 3),
                 preempt_in_cs: rng.chance(1, 3),
+                preempt_at_release: rng.chance(1, 4),
             },
             sched_seed: rng.next_u64(),
             tries: 1,
@@ -562,6 +565,13 @@ impl Engine for Conc {
                     out.push(c);
                 }
             }
+            if sc.policy.preempt_at_release {
+                let mut c = sc.clone();
+                c.policy.preempt_at_release = false;
+                c.forced = None;
+                c.tries = 120;
+                out.push(c);
+            }
             if sc.policy.preempt_in_cs {
                 let mut c = sc.clone();
                 c.policy.preempt_in_cs = false;
@@ -600,6 +610,7 @@ impl Engine for Conc {
             + sc.forced.as_ref().map(|f| switches(f)).unwrap_or(0)
             + sc.policy.writer_pref as usize
             + sc.policy.preempt_in_cs as usize * 2
+            + sc.policy.preempt_at_release as usize * 2
             + sc.shared_container as usize
     }
 }
